@@ -93,6 +93,44 @@ theorem fixed_collapse_phased {nt nv : Nat} {G : PMat} (hv : ValidP nt nv G) (u 
     ∧ uslF G.length nv u (pafreqAt (α := α) nt G) = gebvF nv u (psumAt G i) :=
   collapseP hv u hfix i hi
 
+/-! ### 1b. The model object: miscellaneous random effects, in-place edits of the effect arrays, copies
+
+The model object stores `beta`, `u_misc`, `u_a` and hands the stored arrays out, so a caller may edit them in place
+(`model.u_a[:,t] *= -1`, `model.u_a[j,t] = v`, `model.u_a -= c`, the same on `beta`, or on the arrays that were passed to
+the constructor) between two requests.  `usl` / `lsl` / `gebv` read `self.u_a` and `self.beta` at the time of the call;
+`u_misc` only shows in `self.u = [u_misc; u_a]`. -/
+
+/-- **The marker effects are the block of `u` AFTER the miscellaneous effects**, for every `u_misc`. -/
+theorem marker_block_of_u (uMisc U : List (List α)) : markerBlock uMisc (randomEffects uMisc U) = U := by
+  simp [markerBlock, randomEffects]
+
+/-- ... and the FIRST `p_a` rows of `u` are not: two miscellaneous effects shift every marker effect by two rows. -/
+theorem u_prefix_is_not_marker_block_counterexample :
+    (randomEffects (α := Int) [[1], [-2]] [[3], [-1], [2]]).take 3 ≠ [[3], [-1], [2]] := by decide
+
+/-- **Any history of one model object.**  Start from any object (any `beta`, any `u_misc`, any `u_a`), apply any
+    sequence of in-place edits to `u_a` and to `beta`, copy it: the limits computed from the arrays the object then holds
+    bracket the breeding values computed from the same arrays, trait by trait, with and without the location, and
+    collapse onto them when the population is fixed; `u_misc` is untouched and plays no role. -/
+theorem edited_model_bracket {ploidy nv : Nat} {m : UMat} (hv : ValidU ploidy nv m) (M0 : ModelObj α)
+    (eu eb : List (Edit α)) (t : Nat) (r : List Int) (hr : r ∈ m) :
+    let M := (M0.edit eu eb).copy
+    M.uA = applyEdits eu M0.uA ∧ M.beta = applyEdits eb M0.beta ∧ M.uMisc = M0.uMisc
+    ∧ lslF ploidy nv (eff M.uA t) (afreqAt (α := α) ploidy m) + location M.beta t ≤ gebvF nv (eff M.uA t) (entry r) + location M.beta t
+    ∧ gebvF nv (eff M.uA t) (entry r) + location M.beta t ≤ uslF ploidy nv (eff M.uA t) (afreqAt (α := α) ploidy m) + location M.beta t
+    ∧ lslF ploidy nv (eff M.uA t) (afreqAt (α := α) ploidy m) ≤ gebvF nv (eff M.uA t) (entry r)
+    ∧ gebvF nv (eff M.uA t) (entry r) ≤ uslF ploidy nv (eff M.uA t) (afreqAt (α := α) ploidy m)
+    ∧ ((∀ j, j < nv → afixedOf (afreqAt (α := α) ploidy m j) = true) →
+        lslF ploidy nv (eff M.uA t) (afreqAt (α := α) ploidy m) = gebvF nv (eff M.uA t) (entry r)
+        ∧ uslF ploidy nv (eff M.uA t) (afreqAt (α := α) ploidy m) = gebvF nv (eff M.uA t) (entry r)) := by
+  intro M
+  obtain ⟨a, b, c, d⟩ := bracket hv (eff M.uA t) (location M.beta t) r hr
+  exact ⟨rfl, rfl, rfl, c, d, a, b, fun hfix => fixed_collapse hv (eff M.uA t) hfix r hr⟩
+
+/-- turning a trait around in place (`u_a[:,0] *= -1`) and overwriting one effect: the arrays the object then holds -/
+example : let M := ((ModelObj.mk (α := Rat) [[1]] [[9], [9]] [[3], [-1], [2]]).edit [.scaleCol 0 (-1), .setCell 2 0 1] [.addAll 2]).copy
+    (M.beta, M.uMisc, M.uA) = ([[3]], [[9], [9]], [[-3], [1], [1]]) := by decide +kernel
+
 end static
 
 /-! ## 2. Closed histories: limits only tighten, descendants stay inside, lost alleles stay lost -/
@@ -416,6 +454,20 @@ theorem recip_form_limits_counterexample :
     ∧ (gebvF (α := Float) 1 (fun _ => -1.0) (entry [2]) == -2.0) = true := by decide +kernel
 
 end rounding
+
+/-- **`ploidy` handed to the ndarray form as a numpy int8 scalar (defect D62).**  64 diploid taxa, all homozygous for the
+    allele with effect `3`: every breeding value is 6, but `ploidy * shape[0] = 2 * 64` wraps to `-128` in int8, the
+    "frequency" is `-1`, and both limits come out as 0.  With a Python int (`afreqAt`) both limits are 6.
+    The theorems of sections 1-2 take the ploidy as a natural number, i.e. they describe the call with a Python int. -/
+theorem np_int8_ploidy_limits_counterexample :
+    let m : UMat := List.replicate 64 [2]
+    let p : List Rat := afreqNpPloidy (α := Rat) 8 2 1 m
+    p = [-1]
+    ∧ uslF (α := Rat) 2 1 (fun _ => 3) (fun j => p.getD j 0) = 0
+    ∧ lslF (α := Rat) 2 1 (fun _ => 3) (fun j => p.getD j 0) = 0
+    ∧ gebvF (α := Rat) 1 (fun _ => 3) (entry [2]) = 6
+    ∧ uslF (α := Rat) 2 1 (fun _ => 3) (afreqAt (α := Rat) 2 m) = 6
+    ∧ lslF (α := Rat) 2 1 (fun _ => 3) (afreqAt (α := Rat) 2 m) = 6 := by decide +kernel
 
 /-! ## 4. The Spec oracle the driver evaluates on the implementation's trajectory (Model/SelLimitSpec.lean) -/
 section spec
